@@ -794,6 +794,43 @@ Example names_example :
 Proof. reflexivity. Qed.
 
 (* ------------------------------------------------------------------------------------------- *)
+(** ** B'. a process-wide flag guarding a registration on per-conversion state                    *)
+(* plugins/jax/lax/gather.py: `_ensure_constant_folders_registered(ctx)` registers the constant-evaluator
+   handlers (mul, add, reshape, ...) on ctx._const_folder - an object created with every IRContext - but
+   returns early when the MODULE-LEVEL flag _CONST_HANDLERS_REGISTERED is set, and sets it after the first
+   registration.  So only the first context of a process that lowers a gather can fold a constant index
+   chain.  Model: what a gather conversion observes is whether its context has the handlers.
+   [guard_per_context = true] is the repaired shape (the "already registered" mark lives on the context). *)
+Definition gather_obs (guard_per_context flag : bool) : bool := if guard_per_context then true else negb flag.
+(* a conversion that lowers a gather (uses = true) observes the handlers and sets the flag *)
+Definition convert_gather (guard_per_context : bool) (uses : bool) (flag : bool) : option bool * bool :=
+  if uses then (Some (gather_obs guard_per_context flag), true) else (None, flag).
+Definition flag_after (g : bool) (h : list bool) : bool :=
+  fold_left (fun f u => snd (convert_gather g u f)) h false.
+Definition gather_obs_after (g : bool) (h : list bool) (r : bool) : option bool :=
+  fst (convert_gather g r (flag_after g h)).
+
+Theorem handlers_history_independent_if_guard_per_context : forall h1 h2 r,
+  gather_obs_after true h1 r = gather_obs_after true h2 r.
+Proof. intros h1 h2 []; reflexivity. Qed.
+
+(* the code as it is: the same request folds in a fresh process and does not after any gather export *)
+Theorem handlers_history_independent_refuted :
+  exists h1 h2 r, gather_obs_after false h1 r <> gather_obs_after false h2 r.
+Proof. exists [], [true], true. vm_compute. discriminate. Qed.
+
+(* exactly the histories without an earlier gather conversion agree with the fresh process *)
+Theorem handlers_history_partial : forall h r,
+  existsb (fun u => u) h = false -> gather_obs_after false h r = gather_obs_after false [] r.
+Proof.
+  intros h r H. unfold gather_obs_after. f_equal.
+  unfold flag_after. assert (G : forall f, fold_left (fun f u => snd (convert_gather false u f)) h f = f).
+  { induction h as [|u t IH]; intro f; simpl; auto. simpl in H. apply orb_false_iff in H. destruct H as [-> H].
+    simpl. now apply IH. }
+  now rewrite G.
+Qed.
+
+(* ------------------------------------------------------------------------------------------- *)
 (** * C. the lowering-signature cache is transparent                                            *)
 (* ------------------------------------------------------------------------------------------- *)
 (* lowering_dispatch._lower_accepts_params: cache_key = the function object; table.get(key) is used
